@@ -58,6 +58,26 @@ pub fn check(c: &(M, M), obs: &mut Obs) -> Result<(), String> {
     if ov != t::array_overlap(a, b) {
         return Err(format!("array_overlap = {ov}, list model gives {}\n  first  = {a:?}\n  second = {b:?}", !ov));
     }
+    // either list given as JSON text: the list the text denotes (non-negative integers unsigned)
+    if a.all_finite() && b.all_finite() && a.size() + b.size() < 3000 {
+        let (au, bu) = (a.unsigned_norm(), b.unsigned_norm());
+        let sel = [(ea.len() as u16).wrapping_mul(29), 4, 9];
+        let (ta, tb) = (crate::textref::model_text(&au, &sel), crate::textref::model_text(&bu, &sel));
+        let dt = call("array_distinct(text)", |buf| jsonb::array_distinct(&ta, buf))?;
+        expect("array_distinct(text of first)", &dt, &t::array_distinct(&au), &au, b)?;
+        for (what, x, y, mx, my) in [("text, binary", &ta, &eb, &au, b), ("binary, text", &ea, &tb, a, &bu), ("text, text", &ta, &tb, &au, &bu)] {
+            let (wi, we) = t::array_partition(mx, my);
+            let i2 = call("array_intersection", |buf| jsonb::array_intersection(x, y, buf))?;
+            let e2 = call("array_except", |buf| jsonb::array_except(x, y, buf))?;
+            expect(&format!("array_intersection({what})"), &i2, &wi, mx, my)?;
+            expect(&format!("array_except({what})"), &e2, &we, mx, my)?;
+            let o2 = nopanic("array_overlap", || jsonb::array_overlap(x, y))?.map_err(|e| format!("array_overlap({what}) failed: {e:?}"))?;
+            if o2 != t::array_overlap(mx, my) {
+                return Err(format!("array_overlap({what}) = {o2}, list model gives {}\n  first  = {mx:?}\n  second = {my:?}", !o2));
+            }
+        }
+        obs.label("text-form-lists");
+    }
     // laws on the library's own outputs
     let (mi, me) = (validate(&i)?, validate(&e)?);
     let (li, le) = match (&mi, &me) {
